@@ -1314,10 +1314,7 @@ func (x *repoExec) nativeRun(fsys *simfs.FS, fl []string) runResult {
 		return changed[i].mt < changed[j].mt
 	})
 	for _, c := range changed {
-		hadCert := false
-		if old, ok := fsys.Files[c.name]; ok {
-			hadCert = project.ParsePem(old.Data).Cert != nil
-		}
+		_, hadCert := fsys.Files[c.name] // "replace" = the artifact file was there
 		fsys.Put(c.name, c.data)
 		if e, ok := artOf[c.name]; ok {
 			res.Plan = append(res.Plan, e)
